@@ -307,7 +307,7 @@ def shrink(mod, case, clause, budget=400, log=None):
                     if c != v and abs(c) < abs(v):
                         cands.append(c)
             else:
-                for c in (0.0, 1.0, float(int(v)), v / 2):
+                for c in (0.0, 1.0, float(int(v)) if v == v and abs(v) != float('inf') else 1e300, v / 2):
                     if c != v and abs(c) < abs(v):
                         cands.append(c)
             for c in cands:
